@@ -21,8 +21,8 @@ META = {
     "len(e) x COMPACT, accuracy of a 1e-6 forward difference; poses restored bitwise; (opt) SLAM families of C05 (n in {3,6,12}) with every odometry / landmark edge replaced by its "
     "numerical-Jacobian twin + distance edges: same optimum as the analytic graph (1e-5) and the C05 oracles (independent Newton decrement, ground truth). "
     "non-trivial = Jacobian with an entry outside {0,+-1}",
-    "assumptions": ["forward-difference accuracy bound: 2e-5 x (1 + translation scale)^2 + 1e-8 |e|", "finite program family and alphabets; optimisation inside the C05 radii"],
-    "required_classes": ["prog:distance", "prog:range", "prog:relpose", "prog:prior", "prog:landmark", "prog:midpoint", "prog:spacing", "arity:1", "arity:2", "arity:3", "kind:SE3", "kind:SE2", "opt:numeric_twin", "opt:distance_edges"],
+    "assumptions": ["forward-difference accuracy bound: 1e-5 x (1 + lever arms) x (1 + 1/distance for distance-like programs) + 1e-8 |e| + 1e-8 |coordinates| (rounding); every configuration is also evaluated shifted by (5000,-3000,2000) and after moving vertex 0", "finite program family and alphabets; optimisation inside the C05 radii"],
+    "required_classes": ["prog:distance", "prog:range", "prog:relpose", "prog:prior", "prog:landmark", "prog:midpoint", "prog:spacing", "arity:1", "arity:2", "arity:3", "far_cluster", "moved_then_requested_again", "kind:SE3", "kind:SE2", "opt:numeric_twin", "opt:distance_edges"],
     "bounds": {"quick": "quick pose alphabets (pairs), 8-pose thinned alphabet (triples); SLAM n in {3,6}", "thorough": "thorough alphabets thinned to 60 poses (pairs), 12 (triples); SLAM n in {3,6,12}"},
 }
 
@@ -96,6 +96,9 @@ def programs():
     return out
 
 
+FAR = [5000.0, -3000.0, 2000.0]
+
+
 def _estimate(name, kinds, seed):
     if name in ("distance", "range", "spacing"):
         return 1.7 if name != "spacing" else 0.3
@@ -147,10 +150,12 @@ def run_chunk(chunk, tier, seed):
         if len(kinds) == 1:
             p0 = _alpha(kinds[0], tier, seed, 60)[i]
             _do(acc, {"t": "jac", "prog": a, "poses": [p0], "seed": seed})
+            _do(acc, {"t": "jac", "prog": a, "poses": [p0], "seed": seed, "far": True})
         elif len(kinds) == 2:
             p0 = _alpha(kinds[0], tier, seed, 60)[i]
             for p1 in _alpha(kinds[1], tier, seed, 60):
                 _do(acc, {"t": "jac", "prog": a, "poses": [p0, p1], "seed": seed})
+                _do(acc, {"t": "jac", "prog": a, "poses": [p0, p1], "seed": seed, "far": True})
         else:
             m = 8 if tier == "quick" else 12
             p0 = _alpha(kinds[0], tier, seed, m)[i]
@@ -205,7 +210,13 @@ def _eval(case):
 def _eval_jac(case):
     name, cls, kinds = programs()[case["prog"]]
     seed = case["seed"]
-    verts = [I.Vertex(10 + k, I.mk_pose(kinds[k], case["poses"][k])) for k in range(len(kinds))]
+    poses = [list(c) for c in case["poses"]]
+    if case.get("far"):
+        # the same configuration far from the origin (common shift of every vertex): relative geometry unchanged
+        for k, c in zip(kinds, poses):
+            for a in range(G.DIM[k]):
+                c[a] += FAR[a]
+    verts = [I.Vertex(10 + k, I.mk_pose(kinds[k], poses[k])) for k in range(len(kinds))]
     est = _estimate(name, kinds, seed)
     e = cls([v.id for v in verts], np.eye(1), est, verts)
     if name == "landmark":
@@ -223,9 +234,10 @@ def _eval_jac(case):
     if len(jacs) != len(verts):
         msgs.append("%d Jacobians for a %d-vertex edge" % (len(jacs), len(verts)))
         return msgs, {"classes": classes, "ratio": float("inf")}
-    tsc = 1.0
-    for k, c in zip(kinds, case["poses"]):
-        tsc += max(abs(x) for x in c[: G.DIM[k]])
+    # second-derivative scale of the programs: lever arms between the vertices / to the measurement, NOT absolute coordinates
+    ts = [c[: G.DIM[k]] for k, c in zip(kinds, case["poses"])]
+    tsc = 1.0 + sum(max(abs(x) for x in t) for t in ts)
+    absmax = 1.0 + max(max(abs(x) for x in c[: G.DIM[k]]) for k, c in zip(kinds, poses))
     # distance-like errors are not differentiable where the distance vanishes
     if name in ("distance", "range", "spacing"):
         d0 = _min_distance(name, e)
@@ -253,12 +265,32 @@ def _eval_jac(case):
         curv = 1.0
         if name in ("distance", "range", "spacing"):
             curv = 1.0 + 1.0 / max(_min_distance(name, e), 1e-3)
-        bound = 2e-5 * tsc * tsc * curv + 1e-8 * float(np.max(np.abs(e0)))
+        bound = 1e-5 * tsc * curv + 1e-8 * float(np.max(np.abs(e0))) + 1e-8 * absmax
         d = float(np.max(np.abs(J - Jn)))
         ratio = max(ratio, d / bound)
         if not d <= bound:
             msgs.append("%s over %r: numerical Jacobian of vertex %d differs from the 5-point derivative by %.3g (> %.3g, forward-difference accuracy)" % (name, kinds, vi, d, bound))
-    return msgs, {"classes": classes, "ratio": ratio, "ops": ops, "nontrivial": nontriv}
+    # history: the vertex moves (as during optimisation), the Jacobians are requested again
+    if not msgs and not case.get("far"):
+        v0 = verts[0]
+        c0 = I.comps(v0.pose)
+        for a in range(G.DIM[kinds[0]]):
+            c0[a] += (0.37, -0.21, 0.11)[a]
+        v0.pose = I.mk_pose(kinds[0], c0)
+        if not (name in ("distance", "range", "spacing") and _min_distance(name, e) < 1e-3):
+            e1 = np.asarray(e.calc_error(), dtype=float).ravel()
+            if not (name in ("relpose", "prior") and kinds[0] == "SE2" and abs(abs(e1[2]) - math.pi) < 0.02):
+                jacs2 = I.BaseEdge.calc_jacobians(e)
+                for vi, v in enumerate(verts):
+                    _, Jn = D.edge_fd_jacobian(e, vi, angle_idx, rot)
+                    curv = 1.0 + (1.0 / max(_min_distance(name, e), 1e-3) if name in ("distance", "range", "spacing") else 0.0)
+                    bound = 1e-5 * (tsc + 1.0) * curv + 1e-8 * float(np.max(np.abs(e1))) + 1e-8 * absmax
+                    d = float(np.max(np.abs(np.asarray(jacs2[vi], dtype=float) - Jn)))
+                    ratio = max(ratio, d / bound)
+                    ops += 4 * v.pose.COMPACT_DIMENSIONALITY
+                    if not d <= bound:
+                        msgs.append("%s over %r: after vertex 0 moved, the numerical Jacobian of vertex %d differs from the 5-point derivative at the new pose by %.3g (> %.3g)" % (name, kinds, vi, d, bound))
+    return msgs, {"classes": classes + (["far_cluster"] if case.get("far") else ["moved_then_requested_again"]), "ratio": ratio, "ops": ops, "nontrivial": nontriv}
 
 
 def _min_distance(name, e):
